@@ -1,7 +1,12 @@
-"""C03: see DESIGN.md section 3."""
-import c10
+"""C03 flushed image is a valid qcow2 file with exact refcounts.
+(1) proof gate: coq/Props/C03.v - the verdict of the extracted checker validb means: for EVERY host cluster stored
+    refcount = number of references, and COPIED references are single (soundness of the independent checker);
+(2) exploration: every flushed snapshot of sampled histories (library-formatted and independently built images) is
+    judged by that checker; get_mapping is compared with the specification reader."""
+import c10, common
 
 
 def run(tier, seed, replay):
     n = 60 if tier == 'quick' else 1500
-    return c10.run_foreign('C03', tier, seed, ('valid', 'map'), n, 'Every flushed snapshot judged by the extracted specification checker validb; get_mapping vs the specification reader.', plain_n=(90 if tier == 'quick' else 1500))
+    gate = common.proof_gate('C03', ['Spec/Entries.v', 'Spec/Image.v', 'Proofs/SpecProps.v', 'Props/C03.v'])
+    return c10.run_foreign('C03', tier, seed, ('valid', 'map'), n, 'Checker soundness theorems (Props/C03.v) + every flushed snapshot judged by the extracted specification checker validb; get_mapping vs the specification reader.', plain_n=(90 if tier == 'quick' else 1500), gate=gate)
